@@ -414,6 +414,17 @@ impl Client {
                 // handshake must have been received. Ignore that.
 
                 if frame.nonce_ack == state.local_nonce {
+                    if frame.max_receive_rate == 0 ||
+                       (frame.max_receive_alloc as usize) < self.config.endpoint_config.max_packet_size {
+                        // A server which announces limits that no valid configuration has, or
+                        // that could not take the packets this client may send, is refused just as
+                        // the server refuses such a client. (Packets beyond the receiver's
+                        // allocation limit could never be sent.)
+                        self.events_out.push(Event::Error(ErrorType::Config));
+                        self.state = State::Fin;
+                        return;
+                    }
+
                     let reply = frame::Frame::HandshakeAckFrame(frame::HandshakeAckFrame {
                         nonce_ack: frame.nonce,
                     });
